@@ -22,6 +22,10 @@ pub struct Ctx {
     pub counters: BTreeMap<String, u64>,
     pub findings: Vec<Value>,
     pub per_sig: BTreeMap<String, u64>,
+    /// signatures listed as open in the known-findings file (SV_KNOWN): recorded once, without the
+    /// case, and never counted against the cap on stored witnesses
+    pub listed: HashSet<String>,
+    pub stored_new: usize,
     pub samples: Vec<Value>,
     pub inconclusive: u64,
     pub inconclusive_notes: Vec<String>,
@@ -58,6 +62,25 @@ pub fn now_ms() -> u64 {
         .unwrap_or(0)
 }
 
+/// Open signatures of `prop` in the known-findings file named by SV_KNOWN (empty when unset).
+fn load_listed(prop: &str) -> HashSet<String> {
+    let mut out = HashSet::new();
+    if let Ok(path) = std::env::var("SV_KNOWN") {
+        if let Ok(text) = std::fs::read_to_string(path) {
+            for line in text.lines() {
+                if let Ok(v) = serde_json::from_str::<Value>(line) {
+                    if v["property"].as_str() == Some(prop) && v["status"].as_str().unwrap_or("open") == "open" {
+                        if let Some(sg) = v["signature"].as_str() {
+                            out.insert(sg.to_string());
+                        }
+                    }
+                }
+            }
+        }
+    }
+    out
+}
+
 impl Ctx {
     pub fn new(prop: &str, tier: Tier, seed: u64, progress_path: Option<&str>) -> Self {
         Ctx {
@@ -70,6 +93,8 @@ impl Ctx {
             counters: BTreeMap::new(),
             findings: Vec::new(),
             per_sig: BTreeMap::new(),
+            listed: load_listed(prop),
+            stored_new: 0,
             samples: Vec::new(),
             inconclusive: 0,
             inconclusive_notes: Vec::new(),
@@ -179,7 +204,20 @@ impl Ctx {
     pub fn finding(&mut self, oracle: &str, signature: &str, detail: &str, case: Value) {
         let n = self.per_sig.entry(signature.to_string()).or_insert(0);
         *n += 1;
-        if *n <= 2 && self.findings.len() < 400 {
+        if self.listed.contains(signature) {
+            if *n == 1 {
+                self.findings.push(json!({
+                    "property": self.prop,
+                    "oracle": oracle,
+                    "signature": signature,
+                    "detail": detail,
+                    "case": {"id": case.get("id").cloned().unwrap_or(Value::Null), "listed": true},
+                }));
+            }
+            return;
+        }
+        if *n <= 2 && self.stored_new < 400 {
+            self.stored_new += 1;
             self.findings.push(json!({
                 "property": self.prop,
                 "oracle": oracle,
